@@ -36,9 +36,9 @@ ASSUMPTIONS = [
     "files matched by one glob pattern are applied in sorted order, patterns in listed order (DOCUMENTATION: default_config_files)",
     "with default_env off the environment is ignored by parse_args / parse_string / parse_object / parse_path; parse_env always reads it",
 ]
-KEYS = ["a", "g.x", "g.y", "l", "d", "s", "pq", "m_l"]  # m_l: a list-typed option declared with a hyphen (--m-l, --m-l+); pq: an optional positional (nargs='?'); on the command line it is only ever set through --cfg
+KEYS = ["a", "g.x", "g.y", "l", "d", "s", "pq", "m_l", "u"]  # u: typed Union[int, List[int]] (scalar member first), only ever given lists; m_l: a list-typed option declared with a hyphen (--m-l, --m-l+); pq: an optional positional (nargs='?'); on the command line it is only ever set through --cfg
 ITEMS = ["p", "q", "r"]
-LIST_KEYS = ("l", "m_l")
+LIST_KEYS = ("l", "m_l", "u")
 
 
 def val(k):
@@ -55,7 +55,7 @@ def assignment(with_append=True):
     sets = st.sampled_from(KEYS).flatmap(lambda k: val(k).map(lambda v: [k, "set", v]))
     if not with_append:
         return sets
-    app = st.tuples(st.sampled_from(["l", "l", "m_l"]), st.one_of(st.integers(0, 9), st.lists(st.integers(0, 9), min_size=1, max_size=2))).map(lambda t: [t[0], "append", t[1]])
+    app = st.tuples(st.sampled_from(["l", "l", "m_l", "u"]), st.one_of(st.integers(0, 9), st.lists(st.integers(0, 9), min_size=1, max_size=2))).map(lambda t: [t[0], "append", t[1]])
     return st.one_of(sets, sets, sets, app)
 
 
@@ -68,7 +68,7 @@ def doc(with_append=True):
 def scenario():
     dcf_entry = st.one_of(
         st.tuples(st.sampled_from(["z_site", "m_main", "a_local", "k"]), doc()).map(lambda t: {"file": t[0], "doc": t[1]}),
-        st.sampled_from(["c_only", "c_null"]).map(lambda n: {"file": n, "doc": [], "blank": n}),  # an existing file that assigns nothing (comments only / a null document)
+        st.sampled_from(["c_only", "c_null", "c_empty", "c_space"]).map(lambda n: {"file": n, "doc": [], "blank": n}),  # an existing file that assigns nothing (comments only / a null document)
         st.tuples(st.sampled_from(["conf.d", "b.d"]), doc(), doc(), st.sampled_from([None, None, "20_second", "10_first"])).map(
             lambda t: {"glob": t[0], "docs": [["20_second", t[1]], ["10_first", t[2]]], "listed_first": t[3]}),
         st.tuples(doc(), doc()).map(lambda t: {"glob": "w.d", "docs": [["20_second", t[0]], ["10_first", t[1]]], "listed_first": None, "with_dir": True}),  # the pattern also matches a directory  # listed_first: one of the files is *also* listed by name before the pattern
@@ -138,6 +138,7 @@ def fold(sc):
     s.setdefault("g.y", None)
     s.setdefault("pq", None)
     s.setdefault("m_l", [])
+    s.setdefault("u", [])
     for d in dcf_docs(sc):
         for a in d:
             apply(s, a)
@@ -165,7 +166,7 @@ ctx_note = []
 
 
 def run_scenario(sc, d):
-    from typing import Dict, List, Optional
+    from typing import Dict, List, Optional, Union
 
     from jsonargparse import ArgumentParser
 
@@ -175,7 +176,7 @@ def run_scenario(sc, d):
             fn = os.path.join(d, e["file"] + ".json")
             with open(fn, "w") as f:
                 if e.get("blank"):
-                    f.write("# nothing is assigned here\n" if e["blank"] == "c_only" else "# a null document\nnull\n")
+                    f.write({"c_only": "# nothing is assigned here\n", "c_null": "# a null document\nnull\n", "c_empty": "", "c_space": " \n\n"}[e["blank"]])
                 else:
                     json.dump(nest(e["doc"]), f)
             files.append(fn)
@@ -208,6 +209,7 @@ def run_scenario(sc, d):
         p.add_argument("--g.y", type=Optional[int])
         p.add_argument("--l", type=List[int], default=list(sc["defaults"]["l"]))
         p.add_argument("--m-l", type=List[int], default=[])
+        p.add_argument("--u", type=Union[int, List[int]], default=[])
         p.add_argument("--d", type=Dict[str, int], default=dict(sc["defaults"]["d"]))
         p.add_argument("pq", type=int, nargs="?")
         m = sc["method"]
@@ -303,7 +305,7 @@ def run_case(ctx, sc):
             if k in LIST_KEYS and envcfg_append:
                 ctx.finding("C04/F21/append-in-environment-config-ignores-the-list-built-so-far", {"key": k, "got": got[k], "expected": exp[k]})
             else:
-                ctx.finding(f"C04/{sc['method']}/value-differs-from-fold/{'list' if k == 'l' else 'hyphenated-list' if k == 'm_l' else 'dict' if k == 'd' else 'scalar'}-key",
+                ctx.finding(f"C04/{sc['method']}/value-differs-from-fold/{'list' if k == 'l' else 'hyphenated-list' if k == 'm_l' else 'union-with-list' if k == 'u' else 'dict' if k == 'd' else 'scalar'}-key",
                             {"key": k, "got": got[k], "expected": exp[k], "sources": ops})
     nontrivial = False
     for k, ops in per_key.items():
@@ -363,8 +365,8 @@ def self_test():
     sc = {"defaults": {"s": "dflt", "a": 1, "g.x": 2, "l": [0], "d": {"p": 1}}, "dcf": [{"file": "z_site", "doc": [["l", "append", 5]]}, {"glob": "conf.d", "docs": [["20_second", [["a", "set", 7]]], ["10_first", [["a", "set", 6]]]]}],
           "envcfg": [["d", "set", {"q": 2}]], "envvars": [["g.x", "set", 9]], "cli": [["opt", ["d", "item", ["r", 3]]], ["cfgstr", [["l", "set", [8]]]], ["opt", ["l", "append", [1, 2]]]],
           "env_mode": "on", "method": "parse_args", "final": []}
-    assert fold(sc) == {"s": "dflt", "a": 7, "g.x": 9, "l": [8, 1, 2], "d": {"q": 2, "r": 3}, "g.y": None, "pq": None, "m_l": []}, fold(sc)
-    assert fold(dict(sc, env_mode="off")) == {"s": "dflt", "a": 7, "g.x": 2, "l": [8, 1, 2], "d": {"p": 1, "r": 3}, "g.y": None, "pq": None, "m_l": []}
+    assert fold(sc) == {"s": "dflt", "a": 7, "g.x": 9, "l": [8, 1, 2], "d": {"q": 2, "r": 3}, "g.y": None, "pq": None, "m_l": [], "u": []}, fold(sc)
+    assert fold(dict(sc, env_mode="off")) == {"s": "dflt", "a": 7, "g.x": 2, "l": [8, 1, 2], "d": {"p": 1, "r": 3}, "g.y": None, "pq": None, "m_l": [], "u": []}
     assert fold(dict(sc, method="parse_env", env_mode="off"))["l"] == [0, 5]
     # the environment variable naming rule, cross-checked against what the parser's own help states
     from typing import Optional
